@@ -19,15 +19,17 @@ impl Ctx {
 
     /// Does `w` still fail with the same invariant class? Tries the given schedule first, then a
     /// number of fresh scheduler seeds. Returns the exact trace and violation of the failing run.
-    fn fails(&mut self, w: &Workload, schedule: Option<&[u8]>) -> Option<(Vec<u8>, ViolationInfo)> {
+    fn fails(&mut self, w: &Workload, schedule: Option<&[u8]>) -> Option<(Workload, Vec<u8>, ViolationInfo)> {
         self.tried += 1;
-        let mut attempt = |opts: RunOptions, w: &Workload| -> Option<(Vec<u8>, ViolationInfo)> {
+        let attempt = |opts: RunOptions, w: &Workload| -> Option<(Workload, Vec<u8>, ViolationInfo)> {
             let res = run_workload(w, &opts);
             if res.harness_error.is_some() {
                 return None;
             }
             match res.violation {
-                Some(v) if v.class() == self.class => Some((res.trace, v)),
+                // the workload that failed is returned too: a fresh scheduler seed changes it (the
+                // stream of edge gaps hangs off that seed), and the trace only replays against it
+                Some(v) if v.class() == self.class => Some((w.clone(), res.trace, v)),
                 _ => None,
             }
         };
@@ -96,7 +98,7 @@ pub fn minimise(mut rf: ReplayFile, budget_s: u64) -> ReplayFile {
     let mut viol = rf.violation.clone();
     // make sure the starting point fails at all
     match cx.fails(&w, Some(&sched)) {
-        Some((tr, v)) => {
+        Some((_, tr, v)) => {
             sched = tr;
             viol = v;
         }
@@ -111,8 +113,8 @@ pub fn minimise(mut rf: ReplayFile, budget_s: u64) -> ReplayFile {
         ($cand:expr, $s:expr) => {{
             let cand: Workload = $cand;
             let s: Option<Vec<u8>> = $s;
-            if let Some((tr, v)) = cx.fails(&cand, s.as_deref()) {
-                w = cand;
+            if let Some((failed, tr, v)) = cx.fails(&cand, s.as_deref()) {
+                w = failed;
                 sched = tr;
                 viol = v;
                 true
@@ -313,7 +315,7 @@ pub fn minimise(mut rf: ReplayFile, budget_s: u64) -> ReplayFile {
             let r = cx.fails(&w, Some(&cand_s));
             cx.fresh_seeds = saved_fresh;
             match r {
-                Some((tr, v)) if rle_encode(&tr).len() < rle.len() => {
+                Some((_, tr, v)) if rle_encode(&tr).len() < rle.len() => {
                     sched = tr;
                     viol = v;
                 }
@@ -329,7 +331,7 @@ pub fn minimise(mut rf: ReplayFile, budget_s: u64) -> ReplayFile {
         let r = cx.fails(&w, Some(&sched));
         cx.fresh_seeds = saved_fresh;
         match r {
-            Some((tr, v)) => {
+            Some((_, tr, v)) => {
                 if tr != sched || v.invariant != viol.invariant || v.thread != viol.thread || v.op_index != viol.op_index {
                     stable = false;
                 }
